@@ -61,6 +61,9 @@ func RemoveAll(name string) error                    { pt("removeall"); return o
 func Rename(o, n string) error                       { pt("rename"); return os.Rename(o, n) }
 func Mkdir(name string, p FileMode) error            { pt("mkdir"); return os.Mkdir(name, p) }
 func MkdirAll(name string, p FileMode) error         { pt("mkdirall"); return os.MkdirAll(name, p) }
+func Lchown(name string, uid, gid int) error         { pt("lchown"); return os.Lchown(name, uid, gid) }
+func Chown(name string, uid, gid int) error          { pt("chown"); return os.Chown(name, uid, gid) }
+func Chmod(name string, m FileMode) error            { pt("chmod"); return os.Chmod(name, m) }
 func Stat(name string) (FileInfo, error)             { pt("stat"); return os.Stat(name) }
 func Lstat(name string) (FileInfo, error)            { pt("lstat"); return os.Lstat(name) }
 func ReadFile(name string) ([]byte, error)           { pt("readfile"); return os.ReadFile(name) }
